@@ -336,8 +336,9 @@ where
         let h = decoder.pull().map_err(Into::into)?;
         match h {
           Header::Break => break,
-          Header::Bytes(seg_len) => {
-            let seg = read_bytes(decoder, seg_len)?;
+          // RFC 8949 Section 3.2.3: chunks are definite-length strings
+          Header::Bytes(Some(seg_len)) => {
+            let seg = read_exact_len(decoder, seg_len)?;
             result.extend_from_slice(&seg);
           }
           _ => return Err(DecodeError::Syntax(decoder.offset())),
@@ -367,7 +368,8 @@ where
         let h = decoder.pull().map_err(Into::into)?;
         match h {
           Header::Break => break,
-          Header::Text(seg_len) => {
+          // RFC 8949 Section 3.2.3: chunks are definite-length strings
+          Header::Text(seg_len @ Some(_)) => {
             let seg = read_text(decoder, seg_len)?;
             result.push_str(&seg);
           }
